@@ -578,6 +578,37 @@ def policer_guard(ctx, rep, rule):
         rep.check(rule, "%s.%s.%s|wait-before-send" % (mod, cls, fn), bad is None, "policer awaited before the request",
                   "request self._sock.%s() is sent without waiting for the policer (%s)" % (meth, bad[0] if bad else ""),
                   loc(ctx, mod, bad[1]) if bad else ctx.py.loc(mod, fn_node(ctx, mod, cls, fn)))
+    # ... and wherever else a sync method issues a request (a fast path through another socket call is a request too)
+    for mod in ("sync_client", "sync_getnext", "sync_getbulk"):
+        for cls, meths in sorted(m.classes.get(mod, {}).items()):
+            for meth in sorted(meths):
+                if (mod, cls, meth) in {(a, b, c) for a, b, c, d in table}:
+                    continue
+                ps = m.paths(mod, cls, meth)
+                bad = None
+                k = 0
+                for p in ps or []:
+                    for i, e in calls(p, lambda f: re.search(r"\._sock\.(get|get_many|get_next|get_bulk)$", f) is not None):
+                        k += 1
+                        ok, why = _waited(p, i, e, "wait_sync")
+                        if not ok:
+                            bad = bad or (why, e)
+                if k:
+                    rep.check(rule, "%s.%s.%s|wait-before-send" % (mod, cls, meth), bad is None, "policer awaited before the request",
+                              "a request is sent without waiting for the policer (%s)" % (bad[0] if bad else ""),
+                              loc(ctx, mod, bad[1]) if bad else ctx.py.loc(mod, meths[meth]))
+    for mod, cls, fn, meth in table:
+        # the listed methods: any request call, not only the one the method is named after
+        ps = m.paths(mod, cls, fn)
+        bad = None
+        for p in ps or []:
+            for i, e in calls(p, lambda f: re.search(r"\._sock\.(get|get_many|get_next|get_bulk)$", f) is not None and not f.endswith("._sock." + meth)):
+                ok, why = _waited(p, i, e, "wait_sync")
+                if not ok:
+                    bad = bad or (why, e)
+        if bad is not None:
+            rep.violation(rule, "%s.%s.%s|wait-before-send" % (mod, cls, fn), "request %s() is sent without waiting for the policer (%s)" %
+                          (bad[1].func, bad[0]), loc(ctx, mod, bad[1]))
     # async: every send_* reached from any method is preceded by an awaited policer wait
     covered = set()
     nsend = 0
@@ -828,6 +859,37 @@ def policer_core(ctx, rep, rule):
             else:
                 rep.inconclusive(rule, "RPSPolicer.get_timeout|row:" + name, "slot arithmetic differs from the reference (%s ; return %s): numerical equivalence is "
                                  "not decided statically" % (list(gu), gr), where)
+
+
+def session_defaults(ctx, rep, rule):
+    """The per-session defaults (max_repetitions, allow_bulk, timeout) are chosen once, in the constructor: a per-call
+    override (`getbulk(oid, max_repetitions=n)`) is an argument of that call and must not stick to later calls."""
+    m = model(ctx)
+    attrs = ("self._max_repetitions", "self._allow_bulk", "self._timeout")
+    seen = 0
+    for mod in CLIENTS:
+        for meth, node in sorted(m.classes.get(mod, {}).get("SnmpSession", {}).items()):
+            for n_ in ast.walk(node):
+                tg = []
+                if isinstance(n_, ast.Assign):
+                    for t_ in n_.targets:
+                        tg += [ast.unparse(x) for x in (t_.elts if isinstance(t_, (ast.Tuple, ast.List)) else [t_])]
+                elif isinstance(n_, (ast.AugAssign, ast.AnnAssign)):
+                    tg = [ast.unparse(n_.target)]
+                for t_ in tg:
+                    if t_ not in attrs:
+                        continue
+                    if meth == "__init__":
+                        seen += 1
+                        continue
+                    called_from_init = any(e.origin and meth in e.origin for p_ in (m.paths(mod, "SnmpSession", "__init__") or []) for e in p_.events)
+                    rep.check(rule, "%s.SnmpSession.%s|%s set once" % (mod, meth, t_), called_from_init, "",
+                              "%s is assigned in %s(): a per-call value becomes the session default for every later call" % (t_, meth),
+                              ctx.py.loc(mod, n_))
+    if seen < 4:
+        rep.missing(rule, "SnmpSession.__init__: stores of the session defaults (found %d)" % seen)
+    else:
+        rep.ok(rule, "SnmpSession|defaults set in the constructor only", "%d stores, all in __init__" % seen)
 
 
 def passthrough(ctx, rep, rule):
